@@ -8,11 +8,15 @@ def run(ctx):
     if ctx.replay:
         ctx.run_shards(b, "TestVerifC15", 1, 600, "c15")
     else:
-        # 8 endpoint kinds x 2 halves = 16 work groups, one child each
-        ctx.run_shards(b, "TestVerifC15", 16, 600 if ctx.tier == "quick" else 3000, "c15")
-        if ctx.tier == "thorough":
+        # quick: 8 endpoint kinds x 2 halves = 16 work groups + 1 long-stall scenario (dns, waits for the
+        # listener's once-a-minute expiry sweep) = 17 work items, one child each, all at once.
+        # thorough: 13 kinds x 2 halves + 17 long-stall scenarios = 43 work items, one child each, 16 at a time.
+        if ctx.tier == "quick":
+            ctx.run_shards(b, "TestVerifC15", 17, 900, "c15", parallel=17)
+        else:
+            ctx.run_shards(b, "TestVerifC15", 43, 3000, "c15")
             br = ctx.build(pkg, race=True)
-            ctx.run_shards(br, "TestVerifC15", 16, 1500, "c15race", extra_env={"VERIF_TIER": "quick"}, race=True)
+            ctx.run_shards(br, "TestVerifC15", 17, 1500, "c15race", extra_env={"VERIF_TIER": "quick"}, race=True, parallel=17)
     return driver.finish(
         ctx, "fault_enumeration",
         "for every server endpoint kind {tcp, unix, tcp+tls, tcp+starttls, ws, wss, udp/KCP, dns} the real server is started and k scripted peers "
@@ -25,10 +29,22 @@ def run(ctx):
         "then not one more query) and dns-options-only (version + every option/probe command, never a packet request); udp peers are real KCP sessions. THEN 1-3 real clients (own client command, own upstream object) connect "
         "to the same endpoint at once, open a logical connection and move keyed streams of 1 B..64 KiB both ways to the recording target "
         "(online comparison at both ends). Also: a good client first, then the bad peers, then the same client again plus a new one; and bad "
-        "peers at mixed points. Oracle: every good logical connection completes under the stall rule (no wall-clock deadline) while the stalled "
+        "peers at mixed points. GARBAGE peers (8 per scenario, one layer per scenario, every kind): instead of stalling they send one generated piece of garbage and then only listen "
+        "(the server's reaction - status, bytes, close - is recorded, never judged): on the carrier in place of the first (announce) request and, after a valid announce, in place of the "
+        "second (upgrade) request: COMPLETE requests (request line of 0,1,2,3,4 words - enumerated in every scenario -, separators single/double blank/tab/leading/trailing, header block "
+        "none/valid/no colon/leading blank/blank in key/empty key/5 kB value/NUL/high bytes/300 headers/contradicting duplicates, CRLF or LF, always closed by the empty line), "
+        "semantically wrong but well-formed requests (wrong method for the place, upgrade without announce, unknown version/security, ...), binary, over-long line, a TLS hello, plain HTTP probes "
+        "(incl. HTTP/0.9 'GET /'), a response line, bare CRs, only newlines, smux frames before any handshake, an unterminated header block; below the carrier: junk / oversized record / corrupted hello / cleartext "
+        "requests on TLS endpoints, HTTP-level garbage on ws and wss, junk datagrams and bogus KCP segments on udp, junk datagrams / foreign-domain / random-command / response messages on dns. "
+        "LONG STALLS (one scenario per work item): dns endpoint with every stall point and garbage layer at once, good client A first, sdns.ConnectionTimeout lowered to 30 s, the stall lasts until "
+        "the listener's once-a-minute expiry sweep has been OBSERVED (hook counter; the number of sweeps needed follows from the measured instants) to run over the silent peers' sessions "
+        "(thorough: one sweep more, single-point variants, dns+starttls, and a 40 s stall > smux keep-alive timeout on every other kind); meanwhile every 12 s A opens another logical connection or a new "
+        "client connects; then A again plus 2 new clients. No sweep observed and nothing failed = inconclusive. Oracle: every good logical connection completes under the stall rule (no wall-clock deadline) while the stalled "
         "peers are still connected (their sockets are probed at the end and the state recorded); a scripted peer that is refused an answer "
         "it is entitled to on its way to its stall point counts as blocked too. Distinct = (kind, order, stall points, good clients, sizes); "
         "non-trivial = the good clients ran to a verdict.",
         ["loopback sockets stand for the network", "a peer that stalls for ever stands for every slower-than-the-observer peer; slow trickling senders are not driven",
+         "a process-fatal panic of the server while garbage peers are served is attributed to the scenario marked last (driver: crash:<panic>@<site>)",
+         "long-stall scenario: sdns.ConnectionTimeout is lowered from 5 min to 30 s (the sweep interval itself is hard-coded; real sweeps are waited for)",
          "thorough's -race pass runs the quick case list; race reports are diagnostics only"],
         min_distinct=8)
